@@ -49,7 +49,9 @@ LWeight(row, ev) == LET E == DOMAIN ev IN
     Red(FoldSet(LAMBDA v, acc : acc * CPDNum(b, v, row), 1, E), FoldSet(LAMBDA v, acc : acc * CPDDen(b, v), 1, E))
 Abs(x) == IF x < 0 THEN -x ELSE x
 \* |c/n - p| <= 6 sqrt(p(1-p)/n)  with p = num/den, in integers
-SixSigma(c, n, num, den) == LET dd == c * den - n * num IN dd * dd <= 36 * n * num * (den - num)
+\* (the normal approximation behind the bound needs both expected counts >= 5; smaller kernels are left to the exact kernel checks)
+SixSigma(c, n, num, den) == LET dd == c * den - n * num IN
+    (n * num >= 5 * den /\ n * (den - num) >= 5 * den) => dd * dd <= 36 * n * num * (den - num)
 
 \* full conditional of var v given the other variables' states o (exact, by the joint)
 FullCond(v, o) == LET w == [i \in 1..BCard(b, v) |-> Weight(b, o @@ (v :> b.states[v][i]))]
@@ -96,6 +98,8 @@ Check(e) ==
     [] e.ev = "gibbs" ->
          IF [i \in 1..Len(e.p) |-> <<e.p[i][1], e.p[i][2]>>] = FullCond(e.var, e.others) THEN <<>> ELSE Fail("gibbs.not_full_conditional")
     \* one sweep of the Gibbs chain: the next returned row is the state reached by the logged draws (each draw's kernel is a "gibbs" event)
+    \* samples handed out by a generator stay what they were when they were yielded
+    [] e.ev = "kept" -> IF e.same THEN <<>> ELSE Fail("generate_sample.kept_sample_changed_after_yield")
     [] e.ev = "sweep" -> IF e.after = e.state THEN <<>> ELSE Fail("gibbs.chain_row_not_the_drawn_state")
     [] OTHER -> Fail("unknown_event")
 
